@@ -85,6 +85,18 @@ func installWorld(op Op) (map[string]route, string) {
 		path := substitute(S(Op(rm), "path"), s.hosts, opid)
 		resp := substitute(S(Op(rm), "resp"), s.hosts, opid)
 		fault := S(Op(rm), "fault")
+		if strings.HasPrefix(fault, "cutloc:") {
+			/* a cut placed relative to the end of the Location value of the response as served */
+			var delta int
+			parts := strings.Split(fault, ":")
+			fmt.Sscanf(parts[1], "%d", &delta)
+			fault = ""
+			if loc := strings.Index(resp, "Location: "); loc >= 0 {
+				if e := strings.Index(resp[loc:], "\r\n"); e >= 0 {
+					fault = fmt.Sprintf("cut:%d:%s", loc+e+delta, parts[2])
+				}
+			}
+		}
 		authority := s.hosts[h]
 		routes[authority+" "+path] = route{resp: resp, fault: fault}
 		full := "https://" + authority + strings.TrimSuffix(path, "?*")
@@ -210,6 +222,7 @@ func init() {
 		op["targets"] = seq
 		op["ms"] = timings
 		op["canaryhits"] = s.canaryHits()
+		op["resumed"] = s.resumedSessions()
 		return results
 	}
 	groups["C03"] = group{gen: genC03}
@@ -463,7 +476,9 @@ func genC04(r *rand.Rand, n int, emit func(Op)) {
 				jrd = pick(r, []string{"HTTP/1.0 200 OK\r\nContent-Type: application/json\r\n\r\n{\"links\":[{\"rel\":\"other\"},5]}", "HTTP/1.0 404 x\r\n\r\n", "HTTP/1.0 200 OK\r\nContent-Type: application/jrd+json\r\n\r\n{\"links\":{\"rel\":\"self\",\"type\":\"application/ld+json\",\"href\":\"h\"}}"})
 			}
 			handle := pick(r, []string{"alice", "a b", "a%40b", "a\r\nX: 1", "", "a&resource=evil", "a#x", "é"}) + "@" +
-				pick(r, []string{"{H0}", "{H0}", "{H0}", "{H0}\r\nX-Evil: 1", "{H0}/path", "{H0}#f", "{H0}?x=1", "{CANARY}", "evil.invalid", "{H0} ", "user:pw@{H0}", ""})
+				pick(r, []string{"{H0}", "{H0}", "{H0}", "{H0}\r\nX-Evil: 1", "{H0}/path", "{H0}#f", "{H0}?x=1", "{CANARY}", "evil.invalid", "{H0} ", "user:pw@{H0}", "",
+					/* bracketed hosts: url.URL.Hostname strips brackets and a numeric port, nothing else */
+					"[{H0}]", "[{H0}]\r\nX-Injected: 1", "[{H0}]\r\nX-Injected:1", "[{H0}\r\nX-Injected]", "[::1]\r\nX-Injected"})
 			if r.Intn(10) == 0 {
 				handle = pick(r, []string{"nodomain", "@", "a@b@{H0}"})
 			}
@@ -524,6 +539,12 @@ func genC05(r *rand.Rand, n int, emit func(Op)) {
 						k = 0
 					}
 				}
+				if loc := strings.Index(text, "Location: "); loc >= 0 && r.Intn(3) == 0 {
+					/* inside the Location line, relative to the end of the URL as served: one
+					   character short of it (a decoy document lives there), exactly at its
+					   end, after the CR */
+					return fmt.Sprintf("cutloc:%d:%s", pick(r, []int{-1, -1, 0, 1, -3}), pick(r, []string{"eof", "eof", "stall"}))
+				}
 				return fmt.Sprintf("cut:%d:%s", k, pick(r, []string{"eof", "eof", "reset", "stall"}))
 			case 1:
 				return "stall"
@@ -564,6 +585,11 @@ func genC05(r *rand.Rand, n int, emit func(Op)) {
 			h := r.Intn(simHosts)
 			routes = append(routes, map[string]any{"h": h, "path": fmt.Sprintf("/{OP}/r%d", k), "resp": rr, "fault": f})
 			prev = fmt.Sprintf("https://{H%d}/{OP}/r%d", h, k)
+		}
+		/* decoys: good documents at the URLs that a Location cut one character short names */
+		decoy := "HTTP/1.0 200 OK\r\nContent-Type: application/activity+json\r\n\r\n{\"stamp\":\"decoy\"}"
+		for h := 0; h < simHosts; h++ {
+			routes = append(routes, map[string]any{"h": h, "path": "/{OP}/d", "resp": decoy, "fault": ""}, map[string]any{"h": h, "path": "/{OP}/r", "resp": decoy, "fault": ""})
 		}
 		op := Op{"op": "fetchseq", "routes": routes, "seq": []any{prev}, "accept": accept, "tolerated": tolerated, "budget": 20, "timeout_s": 1}
 		if r.Intn(12) == 0 {
